@@ -23,6 +23,10 @@ CHECKS = {
          "Every (format, length-byte count, declared length, bytes present, nesting depth) mismatch combination, all single-point faults of seed encodings, long legitimate items, list chains and random bytes are decoded in worker processes; an escaped panic, a worker abort (OOM, stack overflow) or an allocation above 1 MiB + 2048*len is a violation.",
          "The allocation bound's constants are chosen with ~4x headroom over the costliest legitimate construct measured; time complexity is not judged; inputs above 16 MiB are not generated.",
          "DESIGN.md §5 C07"),
+ "C13": ("exploration", "hook-H1 sweep of the header routine (exhaustive over all sizes in the thorough tier) + real items at every length-byte boundary and at the limit, decoded back",
+         "The header routine is called for every (format, size) through a verif-tagged export and compared with the arithmetic statement of the header (thorough: all 1.36e8 points, exhaustive; quick: every 257th size plus all sizes within 300 bytes of each boundary); real items of all 14 formats are built at the 255|256, 65535|65536 and 16777215|+1 boundaries, encoded, and decoded back.",
+         "Real items use one shared element value per format; the exhaustive part covers the header routine, not each factory's own limit check (those are exercised at the boundaries only).",
+         "DESIGN.md §5 C13"),
 }
 
 NOT_YET = {}
